@@ -5,6 +5,8 @@ Driver for C07: histories over 3 raw_vector registers and 2 buffer registers sha
 
 ```
 reset                                  start of a history: fresh registers
+dump                                   all registers (contents, sizes) and the ledger
+ctor r adefault|acount n x|arange KIND LIST|ail LIST, bactor b n      the overloads taking the allocator explicitly
 end                                    end of a history: all destructors run, ledger reported
 ctor r default | count n x | range KIND LIST | il LIST | move s | buf b        KIND = fwd|ptr|fl|bidi|inp
 push r SRC | pop r | ins1 r pos SRC | insn r pos n SRC | insr r pos KIND LIST | insr r pos self a b
@@ -56,6 +58,7 @@ def parseAcc (how : String) (i : Nat) : Option Acc :=
 inductive Cmd where
   | reset
   | endHist
+  | dump
   | op (o : Op)
   | cmp (r s : Nat)
   | obs (r : Nat)
@@ -67,6 +70,12 @@ def parseCmd (toks : List String) : Option Cmd :=
   match toks with
   | ["reset"] => some .reset
   | ["end"] => some .endHist
+  | ["dump"] => some .dump
+  | ["ctor", r, "adefault"] => do let r ← parseReg NV r; pure (.op (.ctor r .dflt))
+  | ["ctor", r, "acount", n, x] => do let r ← parseReg NV r; let n ← n.toNat?; let x ← x.toInt?; pure (.op (.ctor r (.count n x)))
+  | ["ctor", r, "arange", f, l] => do let r ← parseReg NV r; let f ← parseFwd f; let l ← parseIntList l; pure (.op (.ctor r (.range l f)))
+  | ["ctor", r, "ail", l] => do let r ← parseReg NV r; let l ← parseIntList l; pure (.op (.ctor r (.il l)))
+  | ["bactor", b, n] => do let b ← parseReg NB b; let n ← n.toNat?; pure (.op (.bctor b n))
   | ["ctor", r, "default"] => do let r ← parseReg NV r; pure (.op (.ctor r .dflt))
   | ["ctor", r, "count", n, x] => do let r ← parseReg NV r; let n ← n.toNat?; let x ← x.toInt?; pure (.op (.ctor r (.count n x)))
   | ["ctor", r, "range", f, l] => do let r ← parseReg NV r; let f ← parseFwd f; let l ← parseIntList l; pure (.op (.ctor r (.range l f)))
@@ -256,6 +265,9 @@ def handle (s : St × Spec.SSt) (toks : List String) : (St × Spec.SSt) × Strin
     | .error f => ((St.init, Spec.SSt.init), "end fault:" ++ f.name)
   | some (.op o) => let (st', sst', line) := runOp s.1 s.2 o; ((st', sst'), line)
   | some (.cmp r t) => (s, cmpLine s.1 r t)
+  | some .dump =>
+    (s, " ".intercalate ((List.range NV).map (fun r => showVec s.1.heap r (s.1.vec r)) ++
+          (List.range NB).map (fun k => showBuf s.1.heap k (s.1.buf k))) ++ s!" live={s.1.heap.liveCount} alloc=ok")
   | some (.obs r) => (s, obsLine s.1 r)
   | some (.bobs b) => (s, bobsLine s.1 b)
   | some (.dynArr n xs) => (s, dynArrLine n xs)
